@@ -6,10 +6,10 @@
 //! blocks (empty, or containing the pending transaction), rewind, fill a scan gap, and create
 //! proposals that lock their inputs. In every distinct state the whole request lattice is sent to
 //! the real proposal functions and every answer is judged against the generation-time ground truth.
-mod chain;
+pub mod chain;
 mod model;
 mod oracle;
-mod uni;
+pub mod uni;
 
 use std::collections::{BTreeMap, BTreeSet};
 use std::sync::atomic::{AtomicU64, Ordering};
